@@ -194,8 +194,8 @@ def CEvent.isPop : CEvent → Bool
     steps until it is at the Pop (a parked worker needs a notification first), plus the steps left
     of the calls in flight -/
 def cmu (s : CState) : Nat :=
-  15 * s.cnt .run + 14 * s.cnt .drained + 13 * s.cnt .noTask + 12 * s.cnt .idleReg + 11 * s.cnt .hasL
-  + 10 * s.cnt .readQT + 10 * s.cnt .readQF + 9 * s.cnt .willWait + 8 * s.cnt .waiting + 7 * s.cnt .woken
+  25 * s.cnt .run + 24 * s.cnt .drained + 23 * s.cnt .noTask + 22 * s.cnt .idleReg + 21 * s.cnt .readQF
+  + 20 * s.cnt .willWait + 19 * s.cnt .waiting + 18 * s.cnt .woken + 17 * s.cnt .hasL + 16 * s.cnt .readQT
   + 6 * s.cnt .unlocking + 5 * s.cnt .unreg + 4 * s.cnt .head + 3 * s.cnt .chkT + 3 * s.cnt .chkF
   + s.cnt .exiting + 2 * s.pushed + s.adderL + 2 * s.swcPend + s.swcL
 
@@ -241,8 +241,8 @@ theorem cmu_step {s s' : CState} {e : CEvent} (h : cstep s e = some s') (hi : e.
 /-- distance of the pool from "all tasks processed, all workers gone" while workerKill = -1: every
     queued task costs a full worker round, every worker its remaining steps to the exit -/
 def cmuJ (s : CState) : Nat :=
-  20 * s.queue + 18 * s.cnt .run + 17 * s.cnt .chkT + 16 * s.cnt .noTask + 15 * s.cnt .idleReg + 14 * s.cnt .hasL
-  + 13 * s.cnt .readQT + 13 * s.cnt .readQF + 12 * s.cnt .willWait + 11 * s.cnt .waiting + 10 * s.cnt .woken
+  40 * s.queue + 31 * s.cnt .run + 30 * s.cnt .chkT + 29 * s.cnt .noTask + 28 * s.cnt .idleReg + 27 * s.cnt .willWait
+  + 26 * s.cnt .waiting + 25 * s.cnt .woken + 24 * s.cnt .hasL + 23 * s.cnt .readQT + 23 * s.cnt .readQF
   + 9 * s.cnt .unlocking + 8 * s.cnt .unreg + 7 * s.cnt .head + 6 * s.cnt .chkF + 5 * s.cnt .drained
   + 4 * s.cnt .exiting + 2 * s.pushed + s.adderL + 2 * s.swcPend + s.swcL
 
